@@ -13,6 +13,7 @@ import (
 	"github.com/zishang520/engine.io/v2/engine"
 	"github.com/zishang520/engine.io/v2/types"
 
+	"verifh/fakenet"
 	"verifh/rep"
 	"verifh/rig"
 )
@@ -626,6 +627,22 @@ func TestC03(t *testing.T) {
 	// journalled cases that have not ended after a minute of real time are examined (rep.Guard)
 	r.Guard(60 * time.Second)
 	r.Rule("fault enumeration: every ordered pair (and single, and triple in thorough) of close causes {peer disconnect, transport error, heartbeat expiry, Close(false), Close(true), Server.Close, parse error} fired at one virtual instant on every transport, with the goroutines that passed the closed-state test held at the hook windows (socket.OnClose.window, socket.Close.window, server.Handshake.afterNewSocket) and released in every order; plus cause-free histories, plus an upgrade packet that lands after the state became closed while an application close listener is still running, and a close cause that completes while Send is between its state test and its flush; oracle: per-session trace automaton (forward-only state writes, exactly one close event with an attributable reason, no session event after close, connection event only for open sessions, Send after close silent) and the registry invariant; distinct = (transport, causes, window, release order, number of goroutines held)")
+	if r.Lane == 2%r.Lanes {
+		for k := 0; k < r.N(8, 200); k++ {
+			for _, tr := range []string{"polling", "websocket", "webtransport"} {
+				rev := 4
+				if tr != "webtransport" && k%3 == 2 {
+					rev = 3
+				}
+				key, msg := runC03ClosingAbandoned(tr, rev, r)
+				r.Case(fmt.Sprintf("closing-abandoned/%s/v%d", tr, rev), true)
+				r.Obs("closing_sessions_on_a_transport_that_never_becomes_writable", 1)
+				if key != "" {
+					r.Violation(key, msg, map[string]any{"lane": "Close(false) with a buffered packet on a transport that never becomes writable again", "transport": tr, "rev": rev})
+				}
+			}
+		}
+	}
 	if r.Lane == 1%r.Lanes {
 		for k := 0; k < r.N(16, 400); k++ {
 			rev := 4 - k%2
@@ -806,6 +823,69 @@ func runC03ConcurrentImmediateClose(rev int, r *rep.Report) (key, msg string, bo
 		rig.Wait()
 		if k, m := judgeLifecycle(w, sid, []string{"close-true", "server-close"}, true); k != "" {
 			key, msg = k, fmt.Sprintf("application Close(true) and Server.Close at the same moment on a polling session (v%d) whose poll is pending, %d closers past the transport's state test, %d found it writable: %s", rev, inWindow, sawWritable, m)
+			return
+		}
+		if k, m := checkRegistry(w); k != "" {
+			key, msg = k, m
+		}
+		cl.Stop()
+	})
+	return
+}
+
+// runC03ClosingAbandoned: a graceful Close(false) with a packet still buffered on a transport that
+// will never be writable again - a polling client that never polls again, or a WebSocket /
+// WebTransport peer that has stopped reading (writer blocked on a full connection) - issued before
+// the first ping, i.e. while no ping timeout is armed.  The session may not linger in 'closing':
+// the heartbeat must still end it, with exactly one close event.
+func runC03ClosingAbandoned(transport string, rev int, r *rep.Report) (key, msg string) {
+	rig.Bubble(r.T(), func() {
+		PI, PT := 300*time.Millisecond, 200*time.Millisecond
+		so := &config.ServerOptions{}
+		so.SetAllowEIO3(true)
+		so.SetTransports(types.NewSet("polling", "websocket", "webtransport"))
+		so.SetPingInterval(PI)
+		so.SetPingTimeout(PT)
+		w := rig.NewWorld(rig.Options{Server: so})
+		defer w.Finish()
+		cl, err := w.Connect(rig.ClientCfg{Rev: rev, Transport: transport, NoAutoPong: true})
+		rig.Wait()
+		sock := w.Socket(0)
+		if err != nil || sock == nil {
+			key, msg = "c03-handshake-failed", fmt.Sprint(err)
+			return
+		}
+		sid := sock.Id()
+		if transport != "polling" {
+			var nc *fakenet.Conn
+			if cl.WS != nil {
+				nc, _ = cl.WS.UnderlyingConn().(*fakenet.Conn)
+			} else if cl.WTStream != nil {
+				nc = cl.WTStream.Conn
+			}
+			if nc == nil {
+				r.Inconclusive("closing-abandoned: no in-memory connection to stall")
+				return
+			}
+			nc.LimitReceiveBuffer(1)
+			nc.StallReads(true)
+			for i := 0; i < 3; i++ {
+				sock.Send(types.NewStringBufferString(strings.Repeat("x", 50000)), nil, nil)
+			}
+			time.Sleep(time.Millisecond)
+			rig.Wait()
+		}
+		sock.Send(types.NewStringBufferString("never-flushed"), nil, nil)
+		sock.Close(false)
+		time.Sleep(PI + 2*PT + 31*time.Second)
+		rig.Wait()
+		evs := w.Tap.Of(sid, "close")
+		if len(evs) != 1 || sock.ReadyState() != "closed" {
+			var rs []string
+			for _, e := range evs {
+				rs = append(rs, e.Str)
+			}
+			key, msg = "c03-no-close-event", fmt.Sprintf("v%d %s session, packet buffered on a transport that never becomes writable again, Close(false) before the first ping: %v later the session is %s with close events %v (want exactly one; the heartbeat must end a session that lingers in 'closing')", rev, transport, PI+2*PT+31*time.Second, sock.ReadyState(), rs)
 			return
 		}
 		if k, m := checkRegistry(w); k != "" {
